@@ -203,6 +203,23 @@ def compiler_shape_mismatches(src_dir, names=COMPILER_FUNCS):
     return [q for q in names if got.get(q) != EXPECTED_COMPILER.get(q)]
 
 
+FILTERS_FUNCS = ("make_multi_attrgetter",)
+
+
+def filters_shapes(src_dir):
+    path = os.path.join(src_dir, "jinja2", "filters.py")
+    tree = ast.parse(open(path, encoding="utf-8").read(), path)
+    return {q: ast.unparse(_find_fn(tree, q)) for q in FILTERS_FUNCS}
+
+
+def filters_shape_mismatches(src_dir):
+    from .sbx_shapes import EXPECTED_FILTERS
+    got = filters_shapes(src_dir)
+    import re
+    norm = lambda t: re.sub(r'"""(.|\n)*?"""', "", t)   # noqa: E731 - docstrings dropped
+    return [q for q in FILTERS_FUNCS if norm(got.get(q, "")) != norm(EXPECTED_FILTERS.get(q, ""))]
+
+
 NODES_FUNCS = ("Getattr.as_const", "Getitem.as_const")
 
 
@@ -234,3 +251,4 @@ def dump_shapes(src_dir):
         f.write(head + "EXPECTED = " + pprint.pformat(facts["shapes"], width=120) + "\n")
         f.write("EXPECTED_COMPILER = " + pprint.pformat(compiler_shapes(src_dir), width=120) + "\n")
         f.write("EXPECTED_NODES = " + pprint.pformat(nodes_shapes(src_dir), width=120) + "\n")
+        f.write("EXPECTED_FILTERS = " + pprint.pformat(filters_shapes(src_dir), width=120) + "\n")
